@@ -193,6 +193,72 @@ pub fn gen_sources(rng: &mut Rng, next: &mut u64, kmin: u64, kmax: u64, max_tile
 	v
 }
 
+/// 3-5 sources whose coverages inside ONE 32x32 sub-box (an 8x8 region at zoom 5) are rectangles, L-shapes, frames,
+/// checkerboards, nested boxes, single rows / columns – overlapping in part
+pub fn shape_sources(rng: &mut Rng, next: &mut u64) -> Vec<SrcSpec> {
+	let k = rng.range(3, 5) as usize;
+	let (ox, oy) = (8u32 * rng.below(4) as u32, 8u32 * rng.below(4) as u32);
+	let mut v = vec![];
+	for i in 0..k {
+		let shape = rng.below(7);
+		let (a, b) = (rng.range(1, 6) as u32, rng.range(1, 6) as u32);
+		let mut coords: Vec<Key> = vec![];
+		for y in 0..8u32 {
+			for x in 0..8u32 {
+				let inside = match shape {
+					0 => x < a + 2 && y < b + 2,                                                  // rectangle at the corner
+					1 => (x < a && y < 8) || (y < b && x < 8),                                     // L-shape
+					2 => x == 0 || y == 0 || x == 7 || y == 7,                                     // frame
+					3 => (x + y) % 2 == (i as u32) % 2,                                            // checkerboard
+					4 => x >= a.min(3) && x <= 7 - a.min(3) && y >= b.min(3) && y <= 7 - b.min(3), // nested box
+					5 => y == b,                                                                   // one row
+					_ => x == a || (x > a && y > b),                                               // column plus far corner
+				};
+				if inside {
+					coords.push((5u8, ox + x, oy + y));
+				}
+			}
+		}
+		if coords.is_empty() {
+			coords.push((5, ox, oy));
+		}
+		let kind = *rng.pick(&["mem", "mem", "versatiles", "pmtiles", "mem^"]);
+		v.push(SrcSpec { fmt: 1, comp: rng.below(3) as u32, kind: kind.to_string(), tiles: assign_ids_style(rng, &coords, next, 0), fail: vec![] });
+	}
+	v
+}
+
+/// the region boxes for `shape_sources`
+pub fn shape_boxes(specs: &[SrcSpec]) -> Vec<TileBBox> {
+	let xs: Vec<u32> = specs.iter().flat_map(|s| s.tiles.keys().map(|k| k.1)).collect();
+	let ys: Vec<u32> = specs.iter().flat_map(|s| s.tiles.keys().map(|k| k.2)).collect();
+	let (x0, y0) = ((*xs.iter().min().unwrap() / 8) * 8, (*ys.iter().min().unwrap() / 8) * 8);
+	vec![
+		TileBBox::new(5, x0, y0, x0 + 7, y0 + 7).unwrap(),
+		TileBBox::new(5, 0, 0, 31, 31).unwrap(),
+		TileBBox::new(5, x0 + 1, y0, x0 + 7, y0 + 6).unwrap(),
+		TileBBox::new(5, x0, y0 + 2, x0 + 5, y0 + 7).unwrap(),
+		TileBBox::new(5, x0 + 3, y0 + 3, x0 + 4, y0 + 4).unwrap(),
+	]
+}
+
+/// every rotation and a few random permutations of `0..k` as overlay orders
+pub fn overlay_orders(rng: &mut Rng, k: usize, extra: usize) -> Vec<Vec<usize>> {
+	let mut v: Vec<Vec<usize>> = (0..k).map(|r| (0..k).map(|i| (i + r) % k).collect()).collect();
+	v.push((0..k).rev().collect());
+	for _ in 0..extra {
+		let mut p: Vec<usize> = (0..k).collect();
+		for i in (1..k).rev() {
+			let j = rng.below(i as u64 + 1) as usize;
+			p.swap(i, j);
+		}
+		v.push(p);
+	}
+	v.sort();
+	v.dedup();
+	v
+}
+
 pub fn coords_arg(rng: &mut Rng, specs: &[SrcSpec], extra: usize) -> String {
 	let mut v: Vec<(u32, u32, u8)> = vec![];
 	for s in specs {
@@ -613,7 +679,7 @@ pub fn run(args: &Args) {
 		let coords = gen_coords(&mut rng, 40, true);
 		let (fmt, comp) = if rng.chance(1, 2) { (1, 1) } else { (2, 0) };
 		let tiles = assign_ids_style(&mut rng, &coords, &mut next, 0);
-		let specs = vec![SrcSpec { fmt, comp, kind: format!("mbx{v}"), tiles, fail: vec![] }];
+		let specs = vec![SrcSpec { fmt, comp, kind: format!("mbx{}", if v % 2 == 0 { v } else { v + 100 }), tiles, fail: vec![] }];
 		let w = World::build(&rt, &scratch, &specs);
 		out.count("A2_world_mbx");
 		if !w.usable() {
@@ -741,6 +807,28 @@ pub fn run(args: &Args) {
 			}
 		} else {
 			out.notes.push(format!("part C world unusable: {:?}", w.open_errors));
+		}
+		w.cleanup();
+	}
+	// ---------------- Part D: overlays / merges of 3-5 sources with L-shaped, framed, checkerboard, nested coverages inside one
+	// 32x32 sub-box, in every rotation and some random orders
+	for _ in 0..args.n(4, 16) {
+		let specs = shape_sources(&mut rng, &mut next);
+		let w = World::build(&rt, &scratch, &specs);
+		out.count("D_world_shapes");
+		if w.usable() {
+			let boxes = shape_boxes(&specs);
+			for ord in overlay_orders(&mut rng, specs.len(), args.n(2, 6)) {
+				let leaves = ord.iter().map(|i| format!("L{i}")).collect::<Vec<_>>().join(",");
+				for t in ["O", "M"] {
+					if t == "M" && ord[0] != 0 {
+						continue;
+					}
+					let rpn = format!("{leaves},{t}{}", ord.len());
+					out.count("D_pipe_shapes");
+					run_in_world(&rt, &mut out, &mut id, &w, "C02", "S", &rpn, &boxes_arg(&boxes));
+				}
+			}
 		}
 		w.cleanup();
 	}
